@@ -280,12 +280,154 @@ def check_prologue(idx: Index, rep: Report) -> None:
         r.fail(f.fq + ":offset0", Finding("C22.R5", f.fq, "offset-reset", "offset is not reset to 0 before both the save and the restore sequence", f.loc))
 
 
+CANON = "xdsl/transforms/canonicalization_patterns/riscv.py"
+
+# Reference table of algebraic identities on fixed-width two's-complement integers (any width):
+# (instruction class, which operand is the constant, constant) -> what the result equals.
+#   "other" = the other register operand, "rs1" = the first operand, "zero" = 0.
+# A constant on the LEFT of a non-commutative instruction has no identity except where listed.
+IDENT_REG = {
+    ("AndOp", 1, 0): "zero", ("AndOp", 2, 0): "zero",
+    ("OrOp", 1, 0): "other", ("OrOp", 2, 0): "other",
+    ("XorOp", 1, 0): "other", ("XorOp", 2, 0): "other",
+    ("AddOp", 1, 0): "other", ("AddOp", 2, 0): "other",
+    ("MulOp", 1, 1): "other", ("MulOp", 2, 1): "other", ("MulOp", 1, 0): "zero", ("MulOp", 2, 0): "zero",
+    ("SubOp", 2, 0): "other",
+    ("DivOp", 2, 1): "other", ("DivuOp", 2, 1): "other",
+    ("SllOp", 2, 0): "other", ("SrlOp", 2, 0): "other", ("SraOp", 2, 0): "other",
+    ("RemOp", 2, 1): "zero", ("RemuOp", 2, 1): "zero",
+}
+IDENT_IMM = {("AddiOp", 0): "rs1", ("OriOp", 0): "rs1", ("XoriOp", 0): "rs1", ("AndiOp", 0): "zero", ("AndiOp", -1): "rs1",
+             ("LiOp", 0): "zero", ("SlliOp", 0): "rs1", ("SrliOp", 0): "rs1", ("SraiOp", 0): "rs1", ("RdRsImmShiftOperation", 0): "rs1"}
+IDENT_SAME = {"SubOp": "zero", "XorOp": "zero", "AndOp": "rs1", "OrOp": "rs1"}
+
+
+def _result_of(call: ast.Call, fn: ast.AST) -> str | None:
+    """What does `rewriter.replace(op, X)` put in the destination?  'rs1' / 'rs2' (mv of that operand), 'zero', or None."""
+    if len(call.args) < 2:
+        return None
+    x = call.args[1]
+    items = list(x.elts) if isinstance(x, (ast.Tuple, ast.List)) else [x]
+    if not items:
+        return None
+    last = items[-1]
+    if isinstance(last, ast.NamedExpr):
+        last = last.value
+    # resolve a local name bound to the op construction
+    if isinstance(last, ast.Name):
+        nm = last.id
+        for st in ast.walk(fn):
+            if isinstance(st, ast.Assign) and len(st.targets) == 1 and isinstance(st.targets[0], ast.Name) and st.targets[0].id == nm:
+                last = st.value
+    if not isinstance(last, ast.Call):
+        return None
+    cname = unparse(last.func).split(".")[-1]
+    if cname == "MVOp" and last.args:
+        a = unparse(last.args[0])
+        if a in ("op.rs1", "op.rs2"):
+            return a[3:]
+        if a.endswith(".res") or a == "zero":
+            # mv of a get_register(ZERO) built in the same replacement
+            if any("Registers.ZERO" in unparse(i) for i in items[:-1]):
+                return "zero"
+        return None
+    if cname == "LiOp" and last.args and unparse(last.args[0]) == "0":
+        return "zero"
+    if cname == "GetRegisterOp" and "Registers.ZERO" in unparse(last):
+        return "zero"
+    return None
+
+
+def check_identities(idx: Index, rep: Report) -> None:
+    r = rep.rule("C22.R6", "RISC-V canonicalization identities: a pattern that replaces an instruction by a move of one operand (or by zero) because another operand is a known constant, or because both operands are the same value, applies an identity of two's-complement arithmetic (reference table)", floor=15)
+    mi = idx.module(CANON)
+    n = 0
+    for c in mi.classes.values():
+        m = c.method("match_and_rewrite")
+        if m is None:
+            continue
+        fn = m.node
+        ann = unparse(fn.args.args[1].annotation) if fn.args.args[1].annotation is not None else ""
+        opcls = ann.split(".")[-1]
+        if opcls == "Operation":
+            # generic pattern parametrised by an op type field: class name of the field's annotation
+            t = unparse(c.node)
+            mm = re.search(r"type\[riscv\.(\w+)\[", t)
+            opcls = mm.group(1) if mm else ""
+        for call in [k for k in calls_in(fn) if call_attr(k) == "replace" and unparse(k.func).startswith("rewriter.")]:
+            res = _result_of(call, fn)
+            if res is None:
+                continue
+            facts = [(t, pol) for t, pol in guard_facts(fn, call)]
+            # guard kinds
+            const_reg = None  # (k, C)
+            const_imm = None
+            same = False
+            other_conds = []
+            for t, pol in facts:
+                tt = unparse(t)
+                mm = re.fullmatch(r"(\w+)\.value\.data == (-?\d+)", tt)
+                if pol and mm:
+                    nm = mm.group(1)
+                    # which operand does the local stand for?  `(rsK := get_constant_value(op.rsK)) is not None`
+                    src = None
+                    for t2, p2 in facts:
+                        m2 = re.fullmatch(rf"\({nm} := get_constant_value\(op\.rs([12])\)\) is not None", unparse(t2))
+                        if m2 and p2:
+                            src = int(m2.group(1))
+                    if src is not None:
+                        const_reg = (src, int(mm.group(2)))
+                    continue
+                mm = re.fullmatch(r"op\.immediate\.value\.data == (-?\d+)", tt)
+                if pol and mm:
+                    const_imm = int(mm.group(1))
+                    continue
+                if pol and tt in ("op.rs1 == op.rs2", "op.rs2 == op.rs1", "op.rs1 is op.rs2"):
+                    same = True
+                    continue
+                if (not pol) and re.fullmatch(r"isinstance\(op\.immediate, IntegerAttr\) and op\.immediate\.value\.data == (-?\d+)", tt):
+                    # `if not (... == C): return` form
+                    const_imm = int(re.search(r"== (-?\d+)", tt).group(1))
+                    # polarity False of a conjunction does not establish the equality: handled below as unknown
+                    const_imm = None
+                other_conds.append(tt)
+            inst = f"{c.name}:{opcls}:{unparse(call)[:40]}"
+            loc = f"{CANON}:{call.lineno}"
+            want = None
+            what = ""
+            if const_reg is not None:
+                k, C = const_reg
+                want = IDENT_REG.get((opcls, k, C))
+                what = f"rs{k} == {C}"
+                got = "zero" if res == "zero" else ("other" if res == f"rs{3 - k}" else ("zero" if (res == f"rs{k}" and C == 0) else f"rs{k}"))
+            elif const_imm is not None:
+                want = IDENT_IMM.get((opcls, const_imm))
+                what = f"immediate == {const_imm}"
+                got = res
+            elif same:
+                want = IDENT_SAME.get(opcls)
+                what = "rs1 == rs2"
+                got = "rs1" if res in ("rs1", "rs2") else res
+            else:
+                continue  # not an identity pattern (constant folding, fusion, ...)
+            n += 1
+            if want is None:
+                r.fail(inst, Finding("C22.R6", c.fq, f"no-identity:{opcls}:{what}", f"{c.name} replaces {opcls} by {'zero' if res == 'zero' else 'a move of ' + res} when {what}; the reference table has no identity for that case (e.g. 0 - x is not x, x / 0 is not x)", loc))
+            elif got != want:
+                r.fail(inst, Finding("C22.R6", c.fq, f"wrong-identity:{opcls}:{what}", f"{c.name}: when {what}, {opcls} equals {'0' if want == 'zero' else ('the other operand' if want == 'other' else want)}, but the pattern produces {'0' if got == 'zero' else got}", loc))
+            else:
+                r.ok(inst, f"{loc} {opcls} with {what} -> {want}")
+    if n < 15:
+        raise AnalysisError(f"only {n} identity patterns recognised in {CANON}")
+
+
 def check(idx: Index, rep: Report, tier: str) -> str:
     rep.run(check_tables, idx, rep)
     rep.run(check_cmp, idx, rep)
     rep.run(check_branch_folding, idx, rep)
     rep.run(check_constants, idx, rep)
     rep.run(check_prologue, idx, rep)
+    rep.run(check_identities, idx, rep)
     return (
         "Reference-table agreement of the table-driven arith->riscv lowerings; exact abstract evaluation of the cmpi / cmpf "
         "instruction templates over the finite outcome spaces (signed x unsigned order; lt/eq/gt/unordered) against arith's "
